@@ -162,6 +162,14 @@ def run(ctx: Ctx, env):
             handler_q = p.entry.get("handler", "?")
             owner_short = ".".join(handler_q.rsplit(".", 2)[-2:])
             where = p.where or p.entry.get("where", "")
+            for ev in p.events:
+                if ev.kind == "may_raise" and ev.data.get("in_exc_ctor") and not ev.data.get("caught"):
+                    ecls = str(ev.data["in_exc_ctor"]).rsplit(".", 1)[-1]
+                    exc = ev.data.get("exc", "").rsplit(".", 1)[-1]
+                    ctx.fail("R5.refusal-can-be-built", f"{owner_short}|{ecls}|{exc}",
+                             f"[{vs}] {label}: while building the refusal {ecls}, `{ev.data.get('what')}` can raise {exc} for the value the handler passes "
+                             f"(a translated expression object, not text): the user gets an internal {exc} instead of the library's exception", ev.where,
+                             _witness(funcs, None, None, kind))
             if p.outcome == "raise":
                 total_raises += 1
                 q = _exc_class(p.value)
